@@ -38,8 +38,11 @@ def run(F, rep):
 
     # ------------------------------------------------------------ A-ORD
     wb = fields.get("write_buffer")
-    rep.ob("C13-ORD", "write_buffer is an ordered map of vectors", bool(wb) and wb["ty"].startswith("alloc::collections::btree::map::BTreeMap<usize, alloc::vec::Vec<"),
-           detail=wb["ty"] if wb else "field missing", key="C13-ORD | write_buffer type")
+    wty = wb["ty"] if wb else ""
+    formA = wty.startswith("alloc::collections::btree::map::BTreeMap<usize, alloc::vec::Vec<")
+    formB = bool(re.match(r"alloc::vec::Vec<\(usize, alloc::vec::Vec<u8>, u64\)>$", wty))
+    rep.ob("C13-ORD", "write_buffer keeps insertion order per stream: an ordered map of vectors, or a flat vector of (stream id, data, metadata) that is sorted stably",
+           formA or formB, detail=wty or "field missing", key="C13-ORD | write_buffer type")
     st = F.adts.get("ragc_common::archive::Stream")
     pf = {f["name"]: f for f in st["variants"][0]["fields"]} if st else {}
     rep.ob("C13-ORD", "Stream.parts is a Vec (commit order = push order)", pf.get("parts", {}).get("ty", "").startswith("alloc::vec::Vec<"),
@@ -61,11 +64,12 @@ def run(F, rep):
            key="C13-ORD | add_part_buffered appends")
     # the pushed tuple is (data, metadata) and the key is stream_id
     ex = Exprs(apb)
+    want_tuple = [("param", "data"), ("param", "metadata")] if not formB else [("param", "stream_id"), ("param", "data"), ("param", "metadata")]
     for bi, t in apb.calls():
         if t["callee"].endswith("Vec::<T, A>::push"):
             v = ex.operand(t["args"][1])
-            ok = isinstance(v, tuple) and v[0] == "agg" and [x[1] for x in v[2]] == [("param", "data"), ("param", "metadata")]
-            rep.ob("C13-ORD", "buffered element is (data, metadata) of the call", ok, detail=fmt(v), site=site_of(apb, t), key="C13-ORD | buffered tuple")
+            ok = isinstance(v, tuple) and v[0] == "agg" and [x[1] for x in v[2]] == want_tuple
+            rep.ob("C13-ORD", "buffered element is (data, metadata) of the call%s" % (" with its stream id" if formB else ""), ok, detail=fmt(v), site=site_of(apb, t), key="C13-ORD | buffered tuple")
         if t["callee"].endswith("BTreeMap::<K, V, A>::entry"):
             rep.ob("C13-ORD", "buffer key is the stream id of the call", ex.operand(t["args"][1]) == ("param", "stream_id"),
                    site=site_of(apb, t), key="C13-ORD | buffer key")
@@ -74,19 +78,44 @@ def run(F, rep):
     loops = for_loops(fb, exf)
     adds = [(bi, t) for bi, t in fb.calls() if t["callee"] == ARCH + "add_part"]
     calls = [t["callee"] for _, t in fb.calls()]
-    ok = len(adds) == 1 and len(loops) == 2 and all(adds[0][0] in L["body"] for L in loops)
-    rep.ob("C13-ORD", "flush_buffers replays the whole buffer through add_part in a doubly nested loop", ok,
-           detail="%d add_part call(s), %d loop(s)" % (len(adds), len(loops)), site="%s:%d" % (fb.file, fb.line_lo), key="C13-ORD | flush replays")
-    rep.ob("C13-ORD", "flush_buffers takes the buffer (mem::take) and does not reorder", any(c.startswith("core::mem::take") for c in calls) and
-           not any(REORDER.search(c) for c in calls), detail="calls: %s" % sorted(set(c.rsplit("::", 2)[-2] + "::" + c.rsplit("::", 1)[-1] for c in calls)),
-           key="C13-ORD | flush takes, no reorder")
-    if loops:
-        outer = max(loops, key=lambda L: len(L["body"]))
-        src = outer["source"]
-        rep.ob("C13-ORD", "outer loop iterates the taken map itself (BTreeMap order)",
-               contains(src, lambda x: isinstance(x, tuple) and x[0] == "call" and x[1].startswith("core::mem::take")) and
-               not contains(src, lambda x: isinstance(x, tuple) and x[0] == "call" and REORDER.search(x[1])),
-               detail=fmt(src), key="C13-ORD | flush outer loop source")
+    if formB:
+        # flat form: one stable sort by the stream id, then one loop replaying every element
+        sorts = [(bi, t) for bi, t in fb.calls() if re.search(r"::sort\w*$", t["callee"])]
+        stable = [t for _, t in sorts if re.search(r"slice::<impl \[T\]>::(sort|sort_by|sort_by_key|sort_by_cached_key)$", t["callee"])]
+        rep.ob("C13-ORD", "flush_buffers orders the flat buffer with exactly one STABLE sort (parts of one stream keep their insertion order)",
+               len(sorts) == 1 and len(stable) == 1,
+               detail="sort calls: %s%s" % ([t["callee"].rsplit("::", 1)[-1] for _, t in sorts], "; an unstable sort may commit parts of the same stream out of insertion order" if len(stable) != len(sorts) else ""),
+               site=site_of(fb, sorts[0][1]) if sorts else "%s:%d" % (fb.file, fb.line_lo), key="C13-ORD | flush sort is stable")
+        keyok = False
+        for c in F.closures_of(fb.key):
+            exc = Exprs(c)
+            for bk in c.blocks:
+                for s_ in bk["stmts"]:
+                    if s_["k"] == "assign" and s_["pl"]["l"] == 0 and not s_["pl"]["p"]:
+                        rv = fmt(strip_tags(exc.rvalue(s_["rv"])))
+                        if re.search(r"\.0\b", rv) and not re.search(r"\.[12]\b", rv):
+                            keyok = True
+        rep.ob("C13-ORD", "the sort key is the stream id (first tuple field) only", keyok, key="C13-ORD | flush sort key")
+        ok = len(adds) == 1 and len(loops) == 1 and adds[0][0] in loops[0]["body"]
+        rep.ob("C13-ORD", "flush_buffers replays the whole buffer through add_part in one loop", ok,
+               detail="%d add_part call(s), %d loop(s)" % (len(adds), len(loops)), site="%s:%d" % (fb.file, fb.line_lo), key="C13-ORD | flush replays")
+        other = [c for c in calls if REORDER.search(c) and not re.search(r"::sort\w*$", c)]
+        rep.ob("C13-ORD", "flush_buffers takes the buffer (mem::take) and does not reorder otherwise", any(c.startswith("core::mem::take") for c in calls) and not other,
+               detail="calls: %s" % sorted(set(c.rsplit("::", 1)[-1] for c in other)), key="C13-ORD | flush takes, no reorder")
+    else:
+        ok = len(adds) == 1 and len(loops) == 2 and all(adds[0][0] in L["body"] for L in loops)
+        rep.ob("C13-ORD", "flush_buffers replays the whole buffer through add_part in a doubly nested loop", ok,
+               detail="%d add_part call(s), %d loop(s)" % (len(adds), len(loops)), site="%s:%d" % (fb.file, fb.line_lo), key="C13-ORD | flush replays")
+        rep.ob("C13-ORD", "flush_buffers takes the buffer (mem::take) and does not reorder", any(c.startswith("core::mem::take") for c in calls) and
+               not any(REORDER.search(c) for c in calls), detail="calls: %s" % sorted(set(c.rsplit("::", 2)[-2] + "::" + c.rsplit("::", 1)[-1] for c in calls)),
+               key="C13-ORD | flush takes, no reorder")
+        if loops:
+            outer = max(loops, key=lambda L: len(L["body"]))
+            src = outer["source"]
+            rep.ob("C13-ORD", "outer loop iterates the taken map itself (BTreeMap order)",
+                   contains(src, lambda x: isinstance(x, tuple) and x[0] == "call" and x[1].startswith("core::mem::take")) and
+                   not contains(src, lambda x: isinstance(x, tuple) and x[0] == "call" and REORDER.search(x[1])),
+                   detail=fmt(src), key="C13-ORD | flush outer loop source")
     ap = fn("add_part")
     exa = Exprs(ap)
     pushes = [(bi, t) for bi, t in ap.calls() if t["callee"].endswith("Vec::<T, A>::push")]
